@@ -72,6 +72,12 @@ type Op struct {
 	KeyStr  *string    `json:"keyStr,omitempty"`
 	Filter  *rx.Cond   `json:"filter,omitempty"`
 	FiltStr *string    `json:"filtStr,omitempty"`
+	// RetVals, when set, is sent as the raw ReturnValues of PutItem / DeleteItem (PutItem and DeleteItem
+	// accept NONE and ALL_OLD only)
+	RetVals string `json:"retVals,omitempty"`
+	// ProjStr is a raw ProjectionExpression (Scan only; the library does not interpret it beyond
+	// the placeholder rules)
+	ProjStr *string `json:"projStr,omitempty"`
 
 	Names  map[string]string `json:"names,omitempty"`
 	Values map[string]val.V  `json:"values,omitempty"`
